@@ -43,7 +43,7 @@ impl CrateIndexer for PavexIndexer {
     }
 
     fn index(&self, crate_data: CrateData, package_id: PackageId) -> IndexResult<AnnotatedItems> {
-        let n_diagnostics = self.diagnostic_sink.len();
+        let n_diagnostics = DiagnosticSink::pushed_by_current_thread();
         let mut annotation_queue = BTreeSet::<QueueItem>::new();
         let mut visitor = PavexIndexingVisitor {
             annotation_queue: &mut annotation_queue,
@@ -52,13 +52,12 @@ impl CrateIndexer for PavexIndexer {
         let krate = Crate::index(crate_data, package_id, &mut visitor);
         let annotated_items =
             annotations::process_queue(annotation_queue, &krate, &self.diagnostic_sink);
-        // No issues arose in the indexing phase if the diagnostic count hasn't changed.
-        //
-        // TODO: Since we're indexing in parallel, the counter may have been incremented
-        //  by a different thread, signaling an issue with indexes for another crate.
-        //  It'd be enough to keep a thread-local counter to get an accurate yes/no,
-        //  but since we don't get false negatives it isn't a big deal.
-        let can_cache_indexes = n_diagnostics == self.diagnostic_sink.len();
+        // No issues arose in the indexing phase if this thread hasn't reported any diagnostic
+        // while indexing this crate.
+        // We're indexing in parallel: the total number of diagnostics in the (shared) sink may
+        // have been incremented by a different thread, signaling an issue with the indexes for
+        // another crate. That's why we rely on a per-thread counter.
+        let can_cache_indexes = n_diagnostics == DiagnosticSink::pushed_by_current_thread();
         IndexResult {
             krate,
             annotations: annotated_items,
